@@ -129,11 +129,15 @@ var Upgrades int
 // the first of them that the client offered); UpgradeChecksOrigin: whether it carried an origin check.
 var UpgradeSubprotocols []string
 var UpgradeChecksOrigin bool
+var UpgradeAllowsForeignOrigin bool
 
 func UpgraderUpgrade(u *websocket.Upgrader, w http.ResponseWriter, r *http.Request, hdr http.Header) (*websocket.Conn, error) {
 	Upgrades++
 	UpgradeSubprotocols = append([]string{}, u.Subprotocols...)
 	UpgradeChecksOrigin = u.CheckOrigin != nil
+	// what the upgrader does with a request whose Origin differs from its Host: gorilla's default (no function
+	// set) refuses it; a function decides for itself
+	UpgradeAllowsForeignOrigin = u.CheckOrigin != nil && u.CheckOrigin(&http.Request{Host: "here.example", Header: http.Header{"Origin": []string{"http://elsewhere.example"}}})
 	if NextUpgrade == nil {
 		return nil, errors.New("vws: upgrade failed")
 	}
@@ -178,5 +182,6 @@ func Reset() {
 	Upgrades = 0
 	UpgradeSubprotocols = nil
 	UpgradeChecksOrigin = false
+	UpgradeAllowsForeignOrigin = false
 	HTTPErrors = nil
 }
